@@ -2140,3 +2140,479 @@ func countedIndexUnbounded(fn *ssa.Function) []unboundedIdx {
 	}
 	return out
 }
+
+// ---------------------------------------------------------------------------------------------
+// Round 7.
+
+// C07-R12: a vote's signature binds every field of its header (round, step, hashes, flags): the
+// certificate acceptor rebuilds each vote from the certificate's own step/round/hash and relies on the
+// recovered signer changing when any of them differs. Decided by the signature-coverage rule of C18
+// (run on a scratch report; only the obligations of type Vote are taken).
+func voteSignatureBindsHeaderRule(p *engine.Prog, r *engine.Report, rule string) {
+	scratch := engine.NewReport("C18", r.Tier, r.Seed)
+	c18R3(p, scratch, codecTypes(p))
+	n := 0
+	for _, o := range scratch.Obls {
+		key := strings.TrimPrefix(o.Key, o.Rule+"|")
+		if !strings.HasPrefix(key, "Vote|") {
+			continue
+		}
+		n++
+		switch o.Status {
+		case engine.Discharged:
+			r.OK(rule, key, o.Pos, o.Detail)
+		case engine.Violated:
+			r.Bad(rule, key, o.Pos, o.Detail+" — signatures collected in one step (reduction votes are gossiped to everybody) can be re-packaged as a certificate of another step, e.g. Final, for the same round and hash")
+		case engine.Undecided:
+			r.Und(rule, key, o.Pos, o.Detail)
+		}
+	}
+	for _, e := range scratch.Errors {
+		r.Errorf("%s (from the signature coverage rule): %s", rule, e)
+	}
+	r.Check(n >= 4, rule, "Vote|header fields found (control)", "", fmt.Sprint(n), "fewer than four signed fields of Vote were enumerated: anchor moved")
+}
+
+// C18-R10: every function that recovers the signer (address or public key) of the same signed type
+// chooses the signed hash the same way: the hash-producing calls that feed the recovery primitive,
+// together with the conditions that select between them (legacy RLP flag), agree between siblings.
+func recoverySiblingsAgreeRule(p *engine.Prog, r *engine.Report, rule string) {
+	type rec struct {
+		f   *ssa.Function
+		sig string
+	}
+	groups := map[string][]rec{}
+	for _, f := range funcsOfPkg(p, "blockchain/types") {
+		if f.Blocks == nil || f.Parent() != nil || isTestish(p.Pos(f.Pos())) || len(f.Params) == 0 {
+			continue
+		}
+		var recovery ssa.CallInstruction
+		for _, c := range engine.Calls(f) {
+			if engine.CallNameIs(c, "Ecrecover", "recoverPlain", "SigToPub") {
+				recovery = c
+			}
+		}
+		if recovery == nil || f.Name() == "recoverPlain" {
+			continue
+		}
+		srcs := map[string]bool{}
+		args := recovery.Common().Args
+		for v := range engine.BackSlice(args[0], engine.SliceOpts{ThroughLoads: true, ThroughCalls: false, MaxNodes: 80}) {
+			c, ok := v.(*ssa.Call)
+			if !ok {
+				continue
+			}
+			o := engine.CalleeObj(&c.Call)
+			if o == nil || o.Pkg() == nil || !engine.IsRepoPkg(o.Pkg()) {
+				continue
+			}
+			conds := []string{}
+			for _, s := range controlSig(c.Block()) {
+				if strings.Contains(s, "UseRlp") {
+					conds = append(conds, s)
+				}
+			}
+			srcs[o.Name()+"@"+strings.Join(conds, "&")] = true
+		}
+		tn := engine.NamedOf(f.Params[0].Type())
+		if tn == nil {
+			continue
+		}
+		groups[tn.Obj().Name()] = append(groups[tn.Obj().Name()], rec{f, joinKeys(srcs)})
+	}
+	n := 0
+	names := []string{}
+	for k := range groups {
+		names = append(names, k)
+	}
+	sort.Strings(names)
+	for _, k := range names {
+		g := groups[k]
+		if len(g) < 2 {
+			continue
+		}
+		sort.Slice(g, func(i, j int) bool { return g[i].f.Name() < g[j].f.Name() })
+		for _, x := range g[1:] {
+			n++
+			r.Fn(engine.FuncName(x.f))
+			r.Check(x.sig == g[0].sig, rule, k+"|"+engine.RelName(x.f)+" chooses the signed hash like "+engine.RelName(g[0].f), p.Pos(x.f.Pos()), x.sig, engine.RelName(x.f)+" recovers over {"+x.sig+"} while "+engine.RelName(g[0].f)+" recovers over {"+g[0].sig+"}: for some objects (e.g. a transaction signed in the legacy RLP form) the recovered public key is not the key of the recovered sender — recovery over the wrong hash silently yields an unrelated valid key")
+		}
+	}
+	r.Check(n >= 1, rule, "scan|sibling recovery functions (control)", "", fmt.Sprint(n), "no sibling pair of signer recovery functions found: anchor moved")
+}
+
+// C18-R11: the snapshot writer marks exactly the values the reader has to materialise: proto3 cannot
+// tell an empty bytes field from an absent one, so WriteTreeTo2 sets EmptyValue from an emptiness test
+// of the exported value (len(value) == 0) and ReadTreeFrom2 replaces the value by an empty slice when
+// the marker is set.
+func snapshotEmptyValueRule(p *engine.Prog, r *engine.Report, rule string) {
+	w := mustFunc(p, r, "core/state", "WriteTreeTo2")
+	rd := mustFunc(p, r, "core/state", "ReadTreeFrom2")
+	if w == nil || rd == nil {
+		return
+	}
+	okW := false
+	var pos ssa.Instruction
+	for _, st := range storesToField([]*ssa.Function{w}, "ProtoSnapshotNodes_Node", "EmptyValue") {
+		pos = st
+		for v := range engine.BackSlice(st.Val, engine.SliceOpts{ThroughLoads: true, MaxNodes: 60}) {
+			bo, ok := v.(*ssa.BinOp)
+			if !ok || bo.Op != token.EQL {
+				continue
+			}
+			if c, isC := engine.ConstInt(bo.Y); !isC || c != 0 {
+				continue
+			}
+			lc, isCall := engine.Unwrap(bo.X).(*ssa.Call)
+			if !isCall {
+				continue
+			}
+			if b, isB := lc.Call.Value.(*ssa.Builtin); isB && b.Name() == "len" {
+				if u, isU := engine.Unwrap(lc.Call.Args[0]).(*ssa.UnOp); isU {
+					if _, fld, ok := engine.FieldOf(u.X); ok && fld == "Value" {
+						okW = true
+					}
+				}
+			}
+		}
+	}
+	if pos == nil {
+		r.Bad(rule, "WriteTreeTo2|EmptyValue written", p.Pos(w.Pos()), "the writer does not set the EmptyValue marker at all: anchor moved or marker dropped")
+	} else {
+		r.Check(okW, rule, "WriteTreeTo2|the marker is set from the emptiness of the exported value", p.InstrPos(pos), "len(node.Value) == 0", "the EmptyValue marker does not depend on len(node.Value) == 0: a leaf with a zero-length value is exported without the marker, decodes as nil and the importer refuses the whole snapshot (\"value cannot be nil for leaf node\") — a valid state cannot be restored by any other node")
+	}
+	okR := false
+	for _, iff := range engine.Ifs(rd) {
+		u, ok := engine.Unwrap(iff.Cond).(*ssa.UnOp)
+		if !ok || u.Op != token.MUL {
+			continue
+		}
+		if _, fld, ok := engine.FieldOf(u.X); !ok || fld != "EmptyValue" {
+			continue
+		}
+		for _, ins := range iff.Block().Succs[0].Instrs {
+			if st, ok := ins.(*ssa.Store); ok {
+				if _, fld, ok := engine.FieldOf(st.Addr); ok && fld == "Value" {
+					switch mk := engine.Unwrap(st.Val).(type) {
+					case *ssa.MakeSlice:
+						if c, isC := engine.ConstInt(mk.Len); isC && c == 0 {
+							okR = true
+						}
+					case *ssa.Slice:
+						// make([]byte, 0) with constant size: a slice of a fresh [0]byte
+						if a, isA := mk.X.(*ssa.Alloc); isA {
+							if pt, ok := a.Type().Underlying().(*types.Pointer); ok {
+								if at, ok := pt.Elem().Underlying().(*types.Array); ok && at.Len() == 0 {
+									okR = true
+								}
+							}
+						}
+					}
+				}
+			}
+		}
+	}
+	r.Check(okR, rule, "ReadTreeFrom2|a marked value is materialised as an empty slice", p.Pos(rd.Pos()), "if EmptyValue { Value = make([]byte, 0) }", "the reader does not turn a marked value into an empty slice: zero-length leaves come back nil")
+}
+
+func init() {
+	extend("C07", func(p *engine.Prog, r *engine.Report) {
+		r.Explanation += " (R12) a vote's signature covers every field of its header (shared with C18-R3)."
+		voteSignatureBindsHeaderRule(p, r, "C07-R12")
+	})
+	extend("C18", func(p *engine.Prog, r *engine.Report) {
+		r.Explanation += " (R10) sibling signer-recovery functions of one signed type choose the signed hash the same way; (R11) the snapshot writer sets the EmptyValue marker from len(value)==0 and the reader materialises an empty slice for it."
+		recoverySiblingsAgreeRule(p, r, "C18-R10")
+		snapshotEmptyValueRule(p, r, "C18-R11")
+	})
+}
+
+// C10-R10 / C13-R10: the clone helpers of the validators cache copy the elements of every slice they
+// hand to the clone: a slice stored into a freshly built object (or map entry) is the result of an
+// append onto a zero-capacity slice / a make, never a re-slice or the plain value of the source's own
+// slice — pool.add/remove shift delegators in place, so a shared backing array lets the canonical cache
+// and its views rewrite each other's lists.
+func cloneCopiesSlicesRule(p *engine.Prog, r *engine.Report, rule string) {
+	n := 0
+	for _, f := range funcsOfPkg(p, "core/validators") {
+		if f.Blocks == nil || isTestish(p.Pos(f.Pos())) || !(strings.HasPrefix(strings.ToLower(f.Name()), "clone")) {
+			continue
+		}
+		r.Fn(engine.FuncName(f))
+		fromParam := func(v ssa.Value) bool {
+			for x := range engine.BackSlice(v, engine.SliceOpts{ThroughLoads: true, ThroughFields: true, MaxNodes: 60}) {
+				if _, ok := x.(*ssa.Parameter); ok {
+					return true
+				}
+			}
+			return false
+		}
+		for _, b := range f.Blocks {
+			for _, ins := range b.Instrs {
+				st, ok := ins.(*ssa.Store)
+				if !ok {
+					continue
+				}
+				if _, isSl := st.Val.Type().Underlying().(*types.Slice); !isSl {
+					continue
+				}
+				if _, isF := st.Addr.(*ssa.FieldAddr); !isF {
+					continue
+				}
+				n++
+				bad := ""
+				switch x := engine.Unwrap(st.Val).(type) {
+				case *ssa.Slice:
+					if fromParam(x.X) {
+						bad = "a re-slice of the source's own slice (same backing array)"
+					}
+				case *ssa.UnOp:
+					if fromParam(x) {
+						bad = "the source's own slice value"
+					}
+				case *ssa.Call:
+					if bi, isB := x.Call.Value.(*ssa.Builtin); isB && bi.Name() == "append" {
+						if sl, isS := engine.Unwrap(x.Call.Args[0]).(*ssa.Slice); isS && fromParam(sl.X) {
+							if c, isC := engine.ConstInt(sl.Max); sl.Max == nil || !isC || c != 0 {
+								bad = "an append onto the source's own slice without a zero capacity (writes into the shared backing array)"
+							}
+						}
+					}
+				}
+				r.Check(bad == "", rule, uniq(r, engine.RelName(f)+"|a cloned slice has its own backing array"), p.InstrPos(st), "copied", "the clone is handed "+bad+": pool.add and pool.remove shift the delegator list in place, so the long-running cache and every ForCheck/Readonly view taken from it corrupt each other's lists — the view no longer equals the registry rebuilt from the stored identities")
+			}
+		}
+	}
+	r.Check(n >= 2, rule, "scan|slices stored by clone helpers (control)", "", fmt.Sprint(n), "fewer than two slice stores found in the clone helpers of core/validators: anchor moved")
+}
+
+// C16-R10: the "lottery not yet computed" marker agrees between the guard and the reset: every field
+// whose nil-ness makes calculateCeremonyCandidates return at once is set to nil (not to an empty
+// container) by completeEpoch — otherwise the lottery of every later epoch of the process is skipped.
+func lotteryMarkerResetRule(p *engine.Prog, r *engine.Report, rule string) {
+	calc := mustFunc(p, r, "core/ceremony", "ValidationCeremony.calculateCeremonyCandidates")
+	done := mustFunc(p, r, "core/ceremony", "ValidationCeremony.completeEpoch")
+	if calc == nil || done == nil {
+		return
+	}
+	n := 0
+	for _, iff := range engine.Ifs(calc) {
+		x, nonNilOnTrue, ok := engine.NilCheck(iff.Cond)
+		if !ok {
+			continue
+		}
+		u, isU := engine.Unwrap(x).(*ssa.UnOp)
+		if !isU {
+			continue
+		}
+		owner, fld, isF := engine.FieldOf(u.X)
+		if !isF || owner != "ValidationCeremony" {
+			continue
+		}
+		nonNil := iff.Block().Succs[1]
+		if nonNilOnTrue {
+			nonNil = iff.Block().Succs[0]
+		}
+		returns := false
+		for _, ins := range nonNil.Instrs {
+			if _, ok := ins.(*ssa.Return); ok {
+				returns = true
+			}
+		}
+		if !returns {
+			continue
+		}
+		n++
+		sts := storesToField([]*ssa.Function{done}, "ValidationCeremony", fld)
+		ok2 := len(sts) > 0
+		for _, st := range sts {
+			if !engine.IsNilConst(engine.Unwrap(st.Val)) {
+				ok2 = false
+			}
+		}
+		r.Check(ok2, rule, "completeEpoch|"+fld+" is reset to the value the lottery guard tests for", p.Pos(done.Pos()), "nil", "calculateCeremonyCandidates returns at once while "+fld+" is not nil, but completeEpoch does not reset it to nil (an empty container is not nil): after the first epoch switch of a process the lottery is silently skipped — no flips to solve, no key packages, for every later ceremony")
+	}
+	r.Check(n >= 1, rule, "calculateCeremonyCandidates|a nil-marker guard exists (control)", p.Pos(calc.Pos()), fmt.Sprint(n), "the lottery guard on a nil marker was not found: anchor moved")
+}
+
+// C16-R11: slot i of an author's key package belongs to entry i of the recipient list on both sides of
+// the encoding: EncryptPrivateKeysPackage appends exactly one entry per recipient on every path of an
+// iteration (an empty one where the public key cannot be parsed), and keysArray.ToBytes hands every
+// pair to the encoding (a plain copy, or a loop in which no iteration skips the append).
+func packageSlotsAlignedRule(p *engine.Prog, r *engine.Report, rule string) {
+	appendsIn := func(f *ssa.Function) []*ssa.Call {
+		var out []*ssa.Call
+		for _, c := range engine.Calls(f) {
+			if cc, ok := c.(*ssa.Call); ok {
+				if b, isB := cc.Call.Value.(*ssa.Builtin); isB && b.Name() == "append" {
+					out = append(out, cc)
+				}
+			}
+		}
+		return out
+	}
+	everyIteration := func(f *ssa.Function, apps []*ssa.Call) (bool, bool) {
+		inLoop := false
+		blocks := map[*ssa.BasicBlock]bool{}
+		var hdr *ssa.BasicBlock
+		for _, a := range apps {
+			if h := enclosingLoopHeader(a.Block()); h != nil {
+				inLoop = true
+				hdr = h
+				blocks[a.Block()] = true
+			}
+		}
+		if !inLoop {
+			return false, true
+		}
+		reach := engine.ReachAvoiding(f, hdr, nil, blocks)
+		for _, pr := range hdr.Preds {
+			if hdr.Dominates(pr) && !blocks[pr] && reach[pr] {
+				return true, false
+			}
+		}
+		return true, true
+	}
+	if f := mustFunc(p, r, "core/mempool", "EncryptPrivateKeysPackage"); f != nil {
+		loop, ok := everyIteration(f, appendsIn(f))
+		r.Check(loop && ok, rule, "EncryptPrivateKeysPackage|one entry per recipient on every path", p.Pos(f.Pos()), "no iteration completes without an append", "an iteration of the recipient loop can finish without appending an entry (or the loop is gone): every later recipient's slot number no longer matches its position in the author's list and it extracts a ciphertext made for somebody else")
+	}
+	if f := mustFunc(p, r, "core/mempool", "keysArray.ToBytes"); f != nil {
+		apps := appendsIn(f)
+		loop, ok := everyIteration(f, apps)
+		if !loop {
+			// the plain copy: append(zero-cap, pairs...) of the receiver's Pairs
+			ok = false
+			for _, a := range apps {
+				if len(a.Call.Args) == 2 {
+					if u, isU := engine.Unwrap(a.Call.Args[1]).(*ssa.UnOp); isU {
+						if _, fld, isF := engine.FieldOf(u.X); isF && fld == "Pairs" {
+							ok = true
+						}
+					}
+				}
+			}
+			for _, st := range storesToField([]*ssa.Function{f}, "ProtoFlipPrivateKeys", "Keys") {
+				if u, isU := engine.Unwrap(st.Val).(*ssa.UnOp); isU {
+					if _, fld, isF := engine.FieldOf(u.X); isF && fld == "Pairs" {
+						ok = true
+					}
+				}
+			}
+		}
+		r.Check(ok, rule, "keysArray.ToBytes|every pair is encoded at its own position", p.Pos(f.Pos()), "verbatim copy", "the package serializer can leave a pair out (e.g. the empty placeholder of a recipient whose key could not be parsed): the slots behind it shift and their recipients cannot decrypt the flip key they were assigned")
+	}
+}
+
+// C14-R13: the executable queue removes an element only if it is the very transaction it was asked to
+// remove: the removal in sortedTxs.Remove is behind an equality test between the hash of the element
+// found and the hash of the argument (the search finds the first element with a nonce not below).
+func queueRemovalGuardedRule(p *engine.Prog, r *engine.Report, rule string) {
+	f := mustFunc(p, r, "core/mempool", "sortedTxs.Remove")
+	if f == nil {
+		return
+	}
+	arg := ssa.Value(f.Params[1])
+	guards := guardsWhere(f, func(cond ssa.Value) (bool, bool, string) {
+		x, y, isEq, ok := eqCond(cond)
+		if !ok {
+			return false, false, ""
+		}
+		isHash := func(v ssa.Value) (*ssa.Call, bool) {
+			c, ok := engine.Unwrap(v).(*ssa.Call)
+			return c, ok && engine.CallNameIs(c, "Hash")
+		}
+		cx, okx := isHash(x)
+		cy, oky := isHash(y)
+		if !okx || !oky {
+			return false, false, ""
+		}
+		ax := engine.Origin(cx.Call.Args[0]) == arg
+		ay := engine.Origin(cy.Call.Args[0]) == arg
+		if ax == ay {
+			return false, false, ""
+		}
+		return true, isEq, "element.Hash() == tx.Hash()"
+	})
+	n := 0
+	for _, st := range storesToField([]*ssa.Function{f}, "sortedTxs", "txs") {
+		n++
+		ok := len(guards) > 0 && engine.OnlyThroughPass(f, st.Block(), guards)
+		r.Check(ok, rule, uniq(r, "sortedTxs.Remove|only the very transaction is removed"), p.InstrPos(st), "behind the hash equality", "the queue is shrunk without comparing the hash of the element found with the hash of the transaction to remove: the search stops at the first nonce not below, so removing a transaction that is not in this queue (a stale competitor with the same nonce, a pending one) evicts an unrelated executable transaction, which stays known to the pool but is never proposed and blocks every higher nonce of its sender")
+	}
+	r.Check(n > 0, rule, "sortedTxs.Remove|the queue is rewritten (control)", p.Pos(f.Pos()), fmt.Sprint(n), "no store to the queue found in Remove: anchor moved")
+}
+
+// C14-R14: no submission path waits on the deferred queue: every send to / receive from
+// TxPool.deferredTxs in the functions that submit a transaction is a case of a non-blocking select.
+func deferredQueueNonBlockingRule(p *engine.Prog, r *engine.Report, rule string) {
+	n := 0
+	for _, f := range funcsOfPkg(p, "core/mempool") {
+		if f.Blocks == nil || isTestish(p.Pos(f.Pos())) {
+			continue
+		}
+		isQ := func(v ssa.Value) bool {
+			u, ok := engine.Unwrap(v).(*ssa.UnOp)
+			if !ok {
+				return false
+			}
+			_, fld, isF := engine.FieldOf(u.X)
+			return isF && fld == "deferredTxs"
+		}
+		for _, b := range f.Blocks {
+			for _, ins := range b.Instrs {
+				switch x := ins.(type) {
+				case *ssa.Send:
+					if isQ(x.Chan) {
+						n++
+						r.Bad(rule, uniq(r, engine.RelName(f)+"|deferred queue is only used without waiting"), p.InstrPos(x), "a plain send to the deferred queue waits while the queue is full: with two submitters (or a drain in between) one of them — a peer handler, or the single intake goroutine — stays blocked inside the pool for good")
+					}
+				case *ssa.UnOp:
+					if x.Op == token.ARROW && isQ(x.X) {
+						n++
+						r.Bad(rule, uniq(r, engine.RelName(f)+"|deferred queue is only used without waiting"), p.InstrPos(x), "a plain receive from the deferred queue waits while the queue is empty: a drain between the fullness test and the receive blocks the submitter inside the pool for good")
+					}
+				case *ssa.Select:
+					for _, st := range x.States {
+						if isQ(st.Chan) {
+							n++
+							r.Check(!x.Blocking, rule, uniq(r, engine.RelName(f)+"|deferred queue is only used without waiting"), p.InstrPos(x), "select with default", "a select without default on the deferred queue can wait forever")
+						}
+					}
+				}
+			}
+		}
+	}
+	r.Check(n >= 3, rule, "scan|operations on the deferred queue (control)", "", fmt.Sprint(n), "fewer than three operations on TxPool.deferredTxs found: anchor moved")
+}
+
+func init() {
+	extend("C10", func(p *engine.Prog, r *engine.Report) {
+		r.Explanation += " (R10) the clone helpers of the validators cache give every cloned slice its own backing array."
+		cloneCopiesSlicesRule(p, r, "C10-R10")
+	})
+	extend("C13", func(p *engine.Prog, r *engine.Report) {
+		cloneCopiesSlicesRule(p, r, "C13-R10")
+	})
+	extend("C11", func(p *engine.Prog, r *engine.Report) {
+		r.Explanation += " (R8) the snapshot writer marks zero-length values from len(value)==0 and the reader materialises them (shared with C18-R11)."
+		snapshotEmptyValueRule(p, r, "C11-R8")
+	})
+	extend("C16", func(p *engine.Prog, r *engine.Report) {
+		r.Explanation += " (R10) the nil marker the lottery guard tests is what completeEpoch resets to; (R11) key package slots stay aligned: one entry per recipient on every path of EncryptPrivateKeysPackage, every pair encoded by keysArray.ToBytes."
+		lotteryMarkerResetRule(p, r, "C16-R10")
+		packageSlotsAlignedRule(p, r, "C16-R11")
+	})
+	extend("C14", func(p *engine.Prog, r *engine.Report) {
+		r.Explanation += " (R13) sortedTxs.Remove shrinks the queue only behind the hash equality of the element found and the argument; (R14) every operation on TxPool.deferredTxs is a case of a non-blocking select."
+		queueRemovalGuardedRule(p, r, "C14-R13")
+		deferredQueueNonBlockingRule(p, r, "C14-R14")
+	})
+}
+
+func init() {
+	extend("C05", func(p *engine.Prog, r *engine.Report) {
+		r.Explanation += " (R8) every cache EnvImp.Commit writes back is re-created by Reset on every path (shared with C04-R6/C15-R2): a balance buffer that survives a transaction is written again by the next successful contract transaction of the block and lowers balances of addresses unrelated to its signer."
+		envCacheResetRule(p, r, "C05-R8", "vm/env", "EnvImp")
+	})
+}
